@@ -210,29 +210,42 @@ Example C08_operator_swap_asis_not_restored_on_exception :
 Proof. exact opexp_nofinally_refuted. Qed.
 Print Assumptions C08_operator_swap_asis_not_restored_on_exception.
 
-(* 7. Which state operator_expectation evaluates: the circuit is (ref_state argument) + ansatz (+ projective).  It
-      is the state of energy_estimation when the solver's reference circuit is used for the default argument, or no
-      override was given, or the reference circuit is passed explicitly. *)
+(* 7. Which state operator_expectation evaluates.  For the source as it is now (regenerated fact
+      opexp_uses_reference = true: the circuit is (self.reference_circuit if ref_state is None else ref_state) + ansatz
+      (+ projective), default ref_state=None) the default call prepares exactly the state of energy_estimation, for
+      every solver — with or without a ref_state override, with or without a projective circuit.  If the source
+      goes back to an empty default reference this proof no longer checks. *)
 Theorem C08_operator_expectation_state :
+  forall (v : solver RS) (x : N), opexp_prepared RS opexp_uses_reference v None x = prepared RS v x.
+Proof. intros v x. destruct (opexp_same_state RS v) as [H _]. exact (H x). Qed.
+Print Assumptions C08_operator_expectation_state.
+
+(* both variants: without the solver's reference circuit in the default (the code before the repair) the states agree
+   when no override was given, or when the reference circuit is passed explicitly *)
+Theorem C08_operator_expectation_state_any_default :
   forall (v : solver RS),
     (forall x, opexp_prepared RS true v None x = prepared RS v x)
     /\ (v_ref_used v = false -> forall x, opexp_prepared RS false v None x = prepared RS v x)
-    /\ (v_ref_used v = true -> forall x, opexp_prepared RS false v (Some (v_ref v)) x = prepared RS v x).
-Proof. exact (opexp_same_state RS). Qed.
-Print Assumptions C08_operator_expectation_state.
+    /\ (forall useref, v_ref_used v = true -> forall x, opexp_prepared RS useref v (Some (v_ref v)) x = prepared RS v x).
+Proof.
+  intro v. destruct (opexp_same_state RS v) as [A [B C]]. repeat split; try assumption.
+  intros useref H x. rewrite <- (C H x). reflexivity.
+Qed.
+Print Assumptions C08_operator_expectation_state_any_default.
 
-(* refuted for the code as written under a ref_state override with the default argument: reference X on qubit 0,
-   H = Z0: energy_estimation evaluates <Z> = -1, operator_expectation(H) evaluates +1 *)
-Theorem C08_operator_expectation_ignores_reference_refuted :
-  opexp_uses_reference = false ->
+(* the as-is definition before the repair (useref = false) is refuted under a ref_state override with the default
+   argument: reference X on qubit 0, H = Z0: energy_estimation evaluates <Z> = -1, operator_expectation(H) +1; with
+   the present default both evaluate -1 *)
+Example C08_operator_expectation_asis_ignores_reference :
   exists (v : solver CycS),
     v_ref_used v = true
     /\ expect_op CycS 1 (v_ham v) (prepared CycS v) = kopp (@k1 CycS)
-    /\ expect_op CycS 1 (v_ham v) (opexp_prepared CycS opexp_uses_reference v None) = @k1 CycS.
+    /\ expect_op CycS 1 (v_ham v) (opexp_prepared CycS false v None) = @k1 CycS
+    /\ expect_op CycS 1 (v_ham v) (opexp_prepared CycS true v None) = kopp (@k1 CycS).
 Proof.
-  intros ->. exists wit_ref_v. destruct wit_ref_facts as [H1 [H2 [H3 _]]]. exact (conj H1 (conj H2 H3)).
+  exists wit_ref_v. destruct wit_ref_facts as [H1 [H2 [H3 H4]]]. exact (conj H1 (conj H2 (conj H3 H4))).
 Qed.
-Print Assumptions C08_operator_expectation_ignores_reference_refuted.
+Print Assumptions C08_operator_expectation_asis_ignores_reference.
 
 (* 8. Symmetry operators, over the regenerated table of the `operator == "<name>"` chain and the regenerated
       keyword arguments of the mapping call: N, Sz, S^2 are all present, each built by its own builder with the
